@@ -1115,5 +1115,66 @@ def lt_unit():
                 assumptions=["linecache.getline and str.strip are abstract (stdlib); Frame.filename by its own unit"])
 
 
-NAME_UNITS = [nm_unit("filename", "co_filename"), nm_unit("funcname", "co_name"), lt_unit()]
+# Frame.clsname / modname: heuristics that must never raise; no class without a first argument named self / cls
+qualname_of = Function("type.__qualname__ or __name__", Val, Val)
+
+
+def cn_setup(ex, p):
+    a = nm_setup(ex, p)
+    co, pf = a["co"], a["pf"]
+    vn = sym_seq(p, "co_varnames", "tuple")
+    loc = sym_ref(p, "f_locals", "dict")
+    glb = sym_ref(p, "f_globals", "dict")
+    p.setf(co.t, "co_varnames", vn.t)
+    p.setf(pf.t, "f_locals", loc.t)
+    p.setf(pf.t, "f_globals", glb.t)
+    H0 = p.snap()
+    p.pc += [Val.is_intv(p.getf(co.t, "co_argcount")), Val.i(p.getf(co.t, "co_argcount")) >= 0, H0.lo_(vn.t) == 0,
+             H0.length(vn.t) >= Val.i(p.getf(co.t, "co_argcount"))]
+    p.add_schema(vn.t, lambda pth, j: Implies(And(j >= 0, j < H0.length(vn.t)), And(is_exact_kind(H0.raw(vn.t, j), "str"), Val.a(H0.raw(vn.t, j)) >= 0)))
+    def b_getattr(ex_, p_, args, kw, node):
+        # getattr(T, "__qualname__", None) or getattr(T, "__name__", None): some str or None
+        r = fresh("tname")
+        p_.pc.append(Or(Val.is_none(r), And(is_exact_kind(r, "str"), Val.a(r) >= 0)))
+        return [("ok", p_, SV(r))]
+    ex.unit.bindings["getattr"] = b_getattr
+    a.update(vn=vn, loc=loc, glb=glb, H0=H0)
+    return a
+
+
+def cn_post(ctx):
+    a = ctx.args
+    H0 = a["H0"]
+    r = ctx.result.t
+    argc = Val.i(H0.getf(a["co"].t, "co_argcount"))
+    first = strval(Val.a(ctx.p.read(a["vn"].t, 0, H0)))
+    return And(Implies(argc == 0, Val.is_none(r)),
+               Implies(And(argc > 0, first != StringVal("self"), first != StringVal("cls")), Val.is_none(r)),
+               Or(Val.is_none(r), is_exact_kind(r, "str")))
+
+
+CN_UNIT = Unit("C18.Frame.clsname", TY + "Frame.clsname", cn_setup,
+               post=[Clause("C18.clsname_only_for_a_first_argument_named_self_or_cls", cn_post)],
+               allowed_raise=lambda ctx: BoolVal(False),
+               **{**COMMON, "props": {}, "field_types": {"pyframe": "frame", "f_code": "code", "f_locals": "dict", "f_globals": "dict", "co_varnames": "tuple"},
+                  "options": dict(COMMON.get("options", {}), strings=True)},
+               assumptions=["getattr(T, name, None) is total and gives a str or None; type(x) is total"])
+
+
+def mn_post(ctx):
+    a = ctx.args
+    H0 = a["H0"]
+    key = ctx.ex.const(ctx.p, "__name__").t
+    r = ctx.result.t
+    return If(H0.dhas(a["glb"].t, key), r == H0.dget(a["glb"].t, key), Val.is_none(r))
+
+
+MN_UNIT = Unit("C18.Frame.modname", TY + "Frame.modname", cn_setup,
+               post=[Clause("C18.modname_is_the_globals_name_or_none", mn_post)],
+               allowed_raise=lambda ctx: BoolVal(False),
+               **{**COMMON, "props": {}, "field_types": {"pyframe": "frame", "f_code": "code", "f_locals": "dict", "f_globals": "dict", "co_varnames": "tuple"},
+                  "bindings": dict(COMMON["bindings"], cast=lambda ex_, p_, args, kw, node: [("ok", p_, args[1])]),
+                  "options": dict(COMMON.get("options", {}), strings=True)})
+
+NAME_UNITS = [nm_unit("filename", "co_filename"), nm_unit("funcname", "co_name"), lt_unit(), CN_UNIT, MN_UNIT]
 UNITS += [HDR_UNIT, NAT_UNIT, FLAT_UNIT, FE_UNIT] + NAME_UNITS
